@@ -9,4 +9,5 @@ for d in sorted(x for x in glob.glob(os.path.join(V, "seeded", "*")) if os.path.
     runs = "; ".join("%s: %s%s" % (p, r.get("result"), "" if r.get("failing_input_found", True) or r.get("result") != "caught" else " (no-failing-input-found)")
                      for p, r in sorted(m.get("checks_run", {}).items()))
     print("| %s | %s | %s | %s | %s |" % (os.path.basename(d), m["property"], ", ".join(os.path.basename(f) for f in m["files"]),
-                                         m.get("needs", "").replace("|", "/")[:220], runs or "not run yet"))
+                                         m.get("needs", "").replace("|", "/")[:220],
+                                         (runs or "not run yet") + (" - SUPERSEDED: no longer manifests on the current tree" if m.get("superseded") else "")))
